@@ -315,7 +315,7 @@ func (fr *frame) call(c *ssa.CallCommon, instr ssa.Value, st *state, pos string)
 		return fr.havocCall(c, instr, st, "call through function value "+c.Value.Name())
 	}
 	if spec, ok := stdSpecs[stdName(callee)]; ok {
-		if idx, must := mustUse[stdName(callee)]; must && instr != nil && fr.fc != nil && fr.fc.FrameOnly {
+		if idx, must := mustUse[stdName(callee)]; must && instr != nil && fr.fc != nil && (fr.fc.FrameOnly || fr.fc.ClaimOnly) {
 			if !resultUsed(instr, idx) {
 				fr.obligeHere("mustuse["+callee.Name()+"]", "", st, "false", pos)
 			}
